@@ -292,11 +292,42 @@ func StopGates(p *core.Program, r *core.Report, rule string) {
 		})
 		ok := len(analysis) == 2 && compute != nil
 		if ok {
+			// the stop flag of an analysis, by role: the bool among the results the call is bound to, or the bool field of
+			// the struct it returns
+			flagPaths := map[string]bool{}
+			for _, c := range analysis {
+				as, isAs := enclosingStmt(fd.Decl.Body, c.Pos()).(*ast.AssignStmt)
+				if !isAs || len(as.Rhs) != 1 {
+					continue
+				}
+				res := core.Callee(info, c).Type().(*types.Signature).Results()
+				isBool := func(t types.Type) bool {
+					b, ok := t.Underlying().(*types.Basic)
+					return ok && b.Kind() == types.Bool
+				}
+				if res.Len() == len(as.Lhs) && res.Len() > 1 {
+					for i := 0; i < res.Len(); i++ {
+						if id, isID := as.Lhs[i].(*ast.Ident); isID && isBool(res.At(i).Type()) {
+							flagPaths[id.Name] = true
+						}
+					}
+				} else if res.Len() == 1 && len(as.Lhs) == 1 {
+					if st, isSt := res.At(0).Type().Underlying().(*types.Struct); isSt {
+						if id, isID := as.Lhs[0].(*ast.Ident); isID {
+							for i := 0; i < st.NumFields(); i++ {
+								if isBool(st.Field(i).Type()) {
+									flagPaths[id.Name+"."+core.RefName(st.Field(i))] = true
+								}
+							}
+						}
+					}
+				}
+			}
 			fm, _, found := FactsAt(fd, compute, nil)
 			nNeg := 0
 			if found {
 				for _, a := range facts.Atoms(fm) {
-					if strings.HasPrefix(a, "b:shouldStop") && facts.Entails(fm, facts.Not{X: facts.Atom(a)}) {
+					if strings.HasPrefix(a, "b:") && flagPaths[strings.TrimPrefix(facts.StripVersions(a), "b:")] && facts.Entails(fm, facts.Not{X: facts.Atom(a)}) {
 						nNeg++
 					}
 				}
